@@ -9,7 +9,7 @@ Import ListNotations.
 Open Scope Z_scope.
 
 (* one case = one call of one public function
-   op 0 get_kmers(rows, w)                 out = k-mer codes per row
+   op 0 get_kmers(rows, w)                 out = k-mer codes per row;  k_labels = str() of every returned k-mer, row-major
       1 get_minimizers(rows, k, w)         out = minimizers per row (k_err: the call raised ValueError)
       2 match_string(rows, pat)            out = 0/1 per window per row            (w = |pat|)
       3 get_motif_scores(rows, PWM(cols))  out = integer scores per row            (w = |cols|)
@@ -60,6 +60,7 @@ Definition spec_ok (c : case) : bool :=
   in_domain c && negb (k_err c) &&
   match k_op c with
   | 0 => zll_eqb (k_out c) (spec_kmers (nA c) (wn c) (k_rows c))
+         && zll_eqb (k_labels c) (map (text_of (k_alpha c)) (all_windows c))
   | 1 => zll_eqb (k_out c) (spec_minimizers (nA c) (Z.to_nat (k_k c)) (wn c) (k_rows c))
   | 2 => zll_eqb (k_out c) (spec_match (k_pat c) (k_rows c))
   | 3 => zll_eqb (k_out c) (spec_motif (k_cols c) (k_rows c))
@@ -73,6 +74,7 @@ Definition model_ok (c : case) : bool :=
   let n := nA c in
   match k_op c with
   | 0 => negb (k_err c) && zll_eqb (k_out c) (get_kmers n (k_w c) (k_rows c))
+         && zll_eqb (k_labels c) (map (to_string (k_alpha c) n (k_w c)) (concat (get_kmers n (k_w c) (k_rows c))))
   | 1 => match get_minimizers n (k_k c) (k_w c) (k_rows c) with
          | None => k_err c
          | Some m => negb (k_err c) && zll_eqb (k_out c) m
